@@ -169,6 +169,10 @@ def judge_c10(res):
         if phase == "alt" and settled:
             # no truth was edited since the first run, only the kind named as truth changed: nothing may change, nothing raise
             hist = "%s, then %s" % (scn["truth"], ", ".join(a["truth"] for a in alt[:i - n_before_alt + 1]))
+            if scn.get("alternate_given"):
+                # the set of kinds named varies as well: say which were named in each run
+                hist = "%s; kinds given per run: all three in the regular runs, then %s" % (
+                    hist, " | ".join("+".join(a.get("given") or scn["given"]) for a in alt[:i - n_before_alt + 1]))
             if run["exception"] is not None:
                 out.append({"target": "*", "what": "run %d (truth kinds so far: %s) raised %s although no file was edited since the "
                                                    "first run" % (i, hist, run["exception"]), "facts": fx, "kind": "raised"})
@@ -178,7 +182,7 @@ def judge_c10(res):
                     # the first time a file changes in this phase it is a change as the second run's (a file that was the truth
                     # so far is formatted when it is first handled as a target), any further change is one of the later runs'
                     out.append({"target": k or f, "what": "run %d changed %s although no file was edited since the first run, only the "
-                                                          "kind named as truth changed (%s)" % (i, f, hist),
+                                                          "kind named as truth / the set of kinds given changed (%s)" % (i, f, hist),
                                 "facts": facts_of(scn, k, run_index=i), "kind": "again2+" if f in changed_in_alt else "again1"})
                     changed_in_alt.add(f)
         if run["exception"] is None and run["result"] is not None:
